@@ -28,6 +28,7 @@ type Obligation struct {
 	Cover  bool   // must be SAT
 	Inputs []InputSym
 	Outs   []InputSym
+	GroundTest string // Go statements that print VRF-RESULT VIOLATED when the real package shows the violation
 	fc     *FuncCtx
 	// results
 	Status  string // unsat sat unknown timeout error
@@ -103,6 +104,7 @@ type FuncCtx struct {
 	curOuts   []InputSym
 	usedContracts map[string]bool
 	byteSlices []byteLeaf
+	groundTest string
 }
 
 type byteLeaf struct {
